@@ -25,7 +25,7 @@ UNENC = {"utf-8": "\udc80", "cp1252": "猫", "cp932": "한", "cp949": "\U0001f60
 
 def base_case(fmt, codec, fs, output, backup):
     r = random.Random(hash((fmt, codec)) & 0xffff)
-    text = "#TITLE:%s;\n#ARTIST:%s;\n#BPMS:0.000=120.000;\n" % (F.rand_str(r, codec, 3), F.rand_str(r, codec, 2))
+    text = "// not the library's own layout\n#TITLE:%s;\n#ARTIST:%s;\n#BPMS:0.000=120.000;\n" % (F.rand_str(r, codec, 3), F.rand_str(r, codec, 2))
     if fmt == "ssc":
         text = "#VERSION:0.83;\n" + text + "#NOTEDATA:;\n#STEPSTYPE:dance-single;\n#NOTES:\n0000\n;\n"
     else:
@@ -43,7 +43,9 @@ def enumeration():
         for fmt in ("sm", "ssc"):
             for fs in ("native", "mem"):
                 for output in (False, True):
-                    for backup in (None, "ok"):
+                    for backup in (None, "ok", "clash_input", "clash_output"):
+                        if backup == "clash_output" and not output:
+                            continue
                         b = base_case(fmt, "cp1252" if fmt == "sm" else "utf-8", fs, output, backup)
                         # exceptions at every position of the edit script
                         for ex in EXCS:
@@ -76,8 +78,8 @@ def gen(rng, i, tier):
         return en[i]
     c = c05.gen(rng, i, tier)
     c["fault"] = rng.choice([None, ["open", "out"], ["write", "out"], ["close", "out"], ["open", "bak"], ["write", "bak"], ["close", "bak"]])
-    if c["backup"] in ("clash_input", "clash_output"):
-        c["backup"] = "ok"
+    if c["backup"] in ("clash_input", "clash_output") and rng.random() < 0.5:
+        c["backup"] = "ok"                      # half of the name clashes are kept: the refusal must come before any write, faults or not
     pos = rng.randrange(len(c["ops"]) + 1)
     if rng.random() < 0.4:
         c["ops"] = c["ops"][:pos] + [["raise", rng.choice(EXCS)]] + c["ops"][pos:]
@@ -221,6 +223,13 @@ def oracle(c, o):
     files = c05.canon_files(o["files"])
     inp, out, bak = c05.paths(c)
     before = {inp: c["data"]}
+    if c["backup"] in ("clash_input", "clash_output"):
+        # a backup name equal to the input or output name: refused before anything is written, whatever else would have happened
+        if o["exc"] != "ValueError":
+            return "backup name equals the %s name but the call ended with %s instead of ValueError" % ("input" if c["backup"] == "clash_input" else "output", o["exc"])
+        if files != before:
+            return "backup name clash: refused, yet the file system changed (%s)" % sorted(files)
+        return None
     if o["body_exc"]:
         if files != before:
             return "the body raised %s but the file system changed: %s" % (o["body_exc"], sorted(files))
